@@ -18,7 +18,7 @@ def run_property(prop, tier, configs=None, repo=None, quiet=False):
     insts = []
     for rule in spec['rules']:
         for i in P.run_rule(rule, facts, tier):
-            if prop in i.props:
+            if P.relevant(prop, i):
                 insts.append(i)
     if tier == 'thorough':
         # every rule is also evaluated on the MIR of the other build configurations (no `prefetch` feature; no debug
@@ -27,7 +27,7 @@ def run_property(prop, tier, configs=None, repo=None, quiet=False):
         for cfg in ('nofeat', 'rel'):
             for rule in spec['rules']:
                 for i in P.run_rule_config(rule, facts, cfg):
-                    if prop in i.props and i.status == 'violation' and (i.key, 'violation') not in have:
+                    if P.relevant(prop, i) and i.status == 'violation' and (i.key, 'violation') not in have:
                         have.add((i.key, 'violation'))
                         insts.append(report.Inst(i.rule, i.key, 'violation', i.where, '[configuration %s] %s' % (cfg, i.detail), i.props, sample=i.sample))
     return insts, facts, key
@@ -68,7 +68,8 @@ def main(argv):
     # floors: fail closed when a rule matches fewer instances than counted by hand
     by_rule = {}
     for i in insts:
-        if i.status in ('ok', 'violation') or (i.status == 'note' and i.nontrivial):
+        # a site the rule looked at and could not decide ("shape not recognised") still shows the rule is alive on this tree
+        if i.status in ('ok', 'violation') or (i.status == 'note' and (i.nontrivial or 'shape not recognised' in i.detail)):
             by_rule[i.rule] = by_rule.get(i.rule, 0) + 1
     failed_rules = {i.rule for i in insts if i.key.endswith('|analysis failed')}
     for rule, floor in spec.get('floors', {}).items():
